@@ -323,7 +323,7 @@ impl Check for C06 {
         crate::runner::scaled(2_500_000, tier)
     }
     fn generate(r: &mut Rng, tier: Tier) -> Case {
-        let (ml, mc) = if r.chance(1, if tier == Tier::Thorough { 150 } else { 500 }) { *r.pick(&[(150, 70), (300, 140), (600, 300), (300, 600)]) } else if r.chance(1, if tier == Tier::Thorough { 25 } else { 120 }) { (80, 40) } else if tier == Tier::Thorough && r.chance(1, 3) { (16, 10) } else { (12, 8) };
+        let (ml, mc) = if r.chance(1, if tier == Tier::Thorough { 150 } else { 500 }) { *r.pick(&[(150, 70), (300, 140), (600, 300), (300, 600), (150, 70), (300, 140), (600, 300), (300, 600), (1100, 1100), (4200, 4200)]) } else if r.chance(1, if tier == Tier::Thorough { 25 } else { 120 }) { (80, 40) } else if tier == Tier::Thorough && r.chance(1, 3) { (16, 10) } else { (12, 8) };
         // parallel pair, sometimes broken
         let n = r.range(0, mc);
         let len = if n == 0 { 0 } else { r.range(0, ml) };
